@@ -140,6 +140,10 @@ func (g *Gen) loopEffects(li loopInfo, h *ssa.BasicBlock) loopEffects {
 					default:
 						le.allHeap = true
 					}
+				case *ssa.Next:
+					if s.IsString {
+						le.ghosts["$it:"+s.Iter.Name()] = true // hidden position of a string iterator
+					}
 				case *ssa.MapUpdate:
 					le.maps = true
 				case *ssa.Call:
